@@ -197,6 +197,8 @@ M("c02.ghash.clmul.aggregate", "C02", GHC, "        clmult(&r1, &r2, xm2, expand
 M("c01.ghash.clmul.multx", "C01", GHC, "    r = (msb ^ 1) - 1;", "    r = msb - 1;", "K-pw|c|ghash.clmul")
 M("c16.ghash.clmul.len16", "C16", GHC, "    len16 = len ^ (len & 0x3F);", "    len16 = len ^ (len & 0x1F);", "K-pw|c|ghash.clmul")
 M("c16.twin.ghash.clmul.cross", "C16", GHC, "    e = _mm_clmulepi64_si128(a, b, 0x10);   /* A0*B1 */\n    f = _mm_clmulepi64_si128(a, b, 0x01);   /* A1*B0 */", "    e = _mm_clmulepi64_si128(a, b, 0x01);\n    f = _mm_clmulepi64_si128(a, b, 0x10);", twin=True)
+M("c08.rt.rsa.pkcs1.order", "C08", "lib/Crypto/PublicKey/RSA.py", "    return construct(der[1:6] + [Integer(der[4]).inverse(der[5])])", "    return construct(der[1:4] + [der[5], der[4]] + [Integer(der[4]).inverse(der[5])])", "K-pw|roundtrip.rsa")
+M("c08.rt.dsa.pkcs8.x", "C08", "lib/Crypto/PublicKey/DSA.py", "    tup = (pow(g, x, p), g, p, q, x)", "    tup = (pow(g, x, p), g, p, q, x % (q >> 1))", "K-pw|roundtrip.dsa")
 CIPH = "lib/Crypto/Cipher/"
 M("c01.aead.eax.omac2", "C01", CIPH + "_mode_eax.py", "            for i in range(3):\n                tag = strxor(tag, self._omac[i].digest())\n            self._mac_tag = tag[:self._mac_len]\n\n        return self._mac_tag", "            for i in range(2):\n                tag = strxor(tag, self._omac[i].digest())\n            self._mac_tag = tag[:self._mac_len]\n\n        return self._mac_tag", "K-pw|aead.eax")
 M("c02.aead.gcm.lens", "C02", CIPH + "_mode_gcm.py", "        self._update(long_to_bytes(8 * self._auth_len, 8))\n        self._update(long_to_bytes(8 * self._msg_len, 8))", "        self._update(long_to_bytes(8 * self._msg_len, 8))\n        self._update(long_to_bytes(8 * self._auth_len, 8))", "K-pw|aead.gcm")
